@@ -963,6 +963,11 @@ func (vfs *OrefaFS) ToSysStat(info fs.FileInfo) avfs.SysStater {
 func (vfs *OrefaFS) Truncate(name string, size int64) error {
 	op := "truncate"
 
+	if size < 0 && vfs.OSType() != avfs.OsWindows {
+		// truncate(2) rejects a negative length before looking at the name.
+		return &fs.PathError{Op: op, Path: name, Err: vfs.err.InvalidArgument}
+	}
+
 	absPath, _ := vfs.Abs(name)
 
 	vfs.mu.RLock()
